@@ -549,3 +549,12 @@ PROPS["C06"] = dict(
                 "(permutation, receivers first, breadth-first levels) are counting/reachability statements decided only by bounded groups where listed.",
     unmechanised=["permutation / level structure of the depth-first and breadth-first orders beyond the bounded groups"],
 )
+
+
+# thorough tier: the other constant neighbour maxima (4 = rook/bishop raster, 8 = queen raster)
+for _nb in (4, 8):
+    _t = seq_groups(_nb, "thorough") + par_groups(_nb, "thorough")
+    for _g in _t:
+        _g.timeout = 3600
+    GROUPS["C04"] = GROUPS["C04"] + _t
+    GROUPS["C10"] = GROUPS["C10"] + [g for g in _t if ".par." in g.name]
